@@ -323,7 +323,9 @@ def s5(otype):
                     value = vals[0] if n == 1 else list(vals)
                     yield ("S5 %s.%s arity %d" % (otype, s.key, n), Block(otype, [kw(s.key, V.Rep([("num", V.num_text(v)) for v in vals], value, ["num"] * n))]))
             elif a.kind == "string":
-                for sv in ("UPPER", "MiXeD", "with  two  spaces", " lead", "trail ", "tab\there", "semi;colon", "back\\slash", "pct%age", "[not closed", "(paren", "{brace", "/slash"):
+                for sv in ("UPPER", "MiXeD", "with  two  spaces", " lead", "trail ", "tab\there", "semi;colon", "back\\slash", "pct%age", "[not closed", "(paren", "{brace", "/slash",
+                           # values that begin and end with a quote character of the kind not used to write them
+                           "'a','b'", "'[x]' = 'y'", "'q'", "'"):
                     yield ("S5 %s.%s string" % (otype, s.key), Block(otype, [kw(s.key, V.Rep([("str", sv)], sv, ["qstr"]))]))
                 break
 
